@@ -10,13 +10,15 @@ from common import *  # noqa
 import csvtie
 import dbmodel as M
 import dbgen
+import dbtie
 
 ALPHA = csvtie.ALPHA + ["_none", "_tag_", "_field_", "t_", "f_", "tt", "ft", "_t", "é", " ", "\x1c", "\U0001F600"]
 KEY_HEADS = ["", "t", "f", "_", "t_", "f_", "_tag_", "_field_", "tf", "ft", "a", "_none", ",", '"', "\n"]
 SENTINEL_LIKE = ["\\x_none", "\\_none", "x_none", "_none_", "\\\\a_none", "_None", "__none", "\\", "\\\\", "_none\\", "\\n_none", "none", "_non"]
 EDGE = SENTINEL_LIKE + [" x", "x ", " ", "  ", "\tx", "x\t", '"', '""', "'", "''", 'a"b', "\r", "\n", "\r\n", "x\ny", ",", ";", "|", "\\", "\\n", "#x", "\ufeffx", "=1+1",
         "_none ", " _none", "0", "-1", "1e5", "nan", "inf", "None", "t_x", "f_x", "_tag_x", "_field_x", "t", "f", "_", "é ", " \U0001F600"]
-DIALECTS = [dict(), dict(), dict(delimiter=";"), dict(delimiter="\t", quotechar="'"), dict(quoting=csv.QUOTE_ALL), dict(delimiter="|", quotechar="'", quoting=csv.QUOTE_ALL)]
+DIALECTS = [dict(), dict(), dict(delimiter=";"), dict(delimiter="\t", quotechar="'"), dict(quoting=csv.QUOTE_ALL), dict(delimiter="|", quotechar="'", quoting=csv.QUOTE_ALL),
+            dict(lineterminator="\n"), dict(lineterminator="\r")]
 
 
 def rstr(rng, lo=0, hi=6):
@@ -191,6 +193,7 @@ def main(tier, seed):
                 pts.append({"time": dbgen.T0 + j * 1000000, "meas": e[0] if j % 2 == 0 else "m",
                             "tags": dict(sorted({"k": e[0], e[-1]: e[1 % len(e)], "t_" + e[0]: "v"}.items())),
                             "fields": dict(sorted({e[-1]: 1.5, "f_" + e[0]: None, "n": j}.items()))})
+        pts = dbtie.sanitize_for(kw, pts)          # known finding F32: the other line-break character under a one-character lineterminator
         d = ck.work / f"file{i}"
         d.mkdir()
         path = str(d / "db.csv")
